@@ -1,0 +1,54 @@
+//go:build verif
+
+package overlay
+
+import (
+	"sync/atomic"
+
+	"go.miragespace.co/specter/spec/protocol"
+
+	"github.com/quic-go/quic-go"
+)
+
+// VerifHookFn receives the name of an instrumentation point, the address of the
+// transport executing it and whether the negotiated connection is incoming.
+type VerifHookFn func(point string, self string, incoming bool)
+
+var verifHook atomic.Pointer[VerifHookFn]
+
+// VerifSetHook installs (or removes, with nil) the instrumentation callback.
+func VerifSetHook(fn VerifHookFn) {
+	if fn == nil {
+		verifHook.Store(nil)
+		return
+	}
+	verifHook.Store(&fn)
+}
+
+func verifPoint(point string, t *QUIC, dir direction) {
+	if fn := verifHook.Load(); fn != nil {
+		(*fn)(point, t.Endpoint.GetAddress(), dir == directionIncoming)
+	}
+}
+
+// VerifCachedConn describes the connection a transport currently caches for a peer.
+type VerifCachedConn struct {
+	Conn     *quic.Conn
+	Incoming bool
+}
+
+// VerifCached returns the cached connection for peer, if any.
+func (t *QUIC) VerifCached(peer *protocol.Node) (VerifCachedConn, bool) {
+	c, ok := t.cachedConnections.Load(t.makeCachedKey(peer))
+	if !ok {
+		return VerifCachedConn{}, false
+	}
+	return VerifCachedConn{Conn: c.quic, Incoming: c.direction == directionIncoming}, true
+}
+
+// VerifReap drops the cached connection for peer the way the reaper does.
+func (t *QUIC) VerifReap(peer *protocol.Node) {
+	if c, ok := t.cachedConnections.Load(t.makeCachedKey(peer)); ok {
+		t.reapPeer(c.quic, peer)
+	}
+}
